@@ -734,7 +734,10 @@ def _generic_loop(self, s, env, pc, rets, depth):
   sub = []
   self.block(s.body, env, pc & ex, sub, depth)
   if sub:
-    raise core.AnalysisError('return inside loop over %s' % it)
+    # the function can leave from inside the loop: the elements after that point
+    # are never looked at (recorded; the rule that owns the loop decides)
+    self.facts.append(('early-return', it, {'line': getattr(s, 'lineno', None)}))
+    rets.extend(sub)
   return pc
 
 
